@@ -19,8 +19,8 @@ LEVEL_NOTE = ('The IR snapshot (vlib/irstruct.py) walks dataclass fields / init_
 RULE = ('Case = decorated ProgGen program (see vlib/wflab.py); every C40 registry entry is applied with up to 3 (quick) / '
         '6 (thorough) option combinations to a fresh IR, twice in a row. Non-trivial = the first application changed the '
         'regenerated text for at least one entry; distinct = hash of program text.')
-CASES = {'quick': 96, 'thorough': 1800}
-MIN_NONTRIVIAL = {'quick': 60, 'thorough': 1200}
+CASES = {'quick': 96, 'thorough': 1200}
+MIN_NONTRIVIAL = {'quick': 60, 'thorough': 800}
 ANCHORS = ['loki/transformations/sanitise/associates.py', 'loki/transformations/array_indexing/vector_notation.py',
            'loki/transformations/array_indexing/array_indices.py', 'loki/transformations/utilities.py',
            'loki/transformations/sanitise/sequence_associations.py', 'loki/transformations/remove_code.py']
